@@ -143,6 +143,9 @@ func loadUniverse(name string, bc BuildConfig, allDeps bool) (*Universe, error) 
 // loadUniverseOverlay loads with in-memory replacements for some files (thorough tier's kill matrix; nothing is
 // written to the repository).
 func loadUniverseOverlay(name string, bc BuildConfig, allDeps bool, overlay map[string][]byte) (*Universe, error) {
+	if overlay == nil {
+		overlay = overlayFromEnv() // mutation sweep only; never set by the registered commands
+	}
 	env := baseEnv()
 	var dir string
 	var patterns []string
